@@ -66,6 +66,7 @@ func VerifC02Atomic() {
 		rt := db.ReadTxn()
 		ra, rb := ta.Revision(rt), tb.Revision(rt)
 		if !committing {
+			vnd.Assert(rt.getTableEntry(tb).deleteTrackers.Len() == 0, "C02.delete-tracker-visible-before-commit")
 			vnd.Assert(ra == revA0 && rb == revB0, "C02.invisible-before-commit")
 			sameObs(obsBefore, observe(rt), "C02.invisible-before-commit.obs")
 			vnd.Assert(!vnd.IsClosed(watchGet) && !vnd.IsClosed(watchAll) && !vnd.IsClosed(watchB), "C06.no-wakeup-before-commit")
@@ -95,6 +96,12 @@ func VerifC02Atomic() {
 			ta.Delete(w, &vobj{id: k})
 			tb.Delete(w, &vobj{id: k})
 		}
+	}
+	// optionally the transaction also creates a change iterator on B
+	var it2 ChangeIterator[*vobj]
+	if vnd.Bool("changes") {
+		it2, _ = tb.Changes(w)
+		vnd.Cover("C02.changes-in-txn")
 	}
 	revA1, revB1 = ta.Revision(w), tb.Revision(w)
 	changedA, changedB := revA1 != revA0, revB1 != revB0
@@ -132,10 +139,17 @@ func VerifC02Atomic() {
 		// an identical follow-up transaction behaves as the aborted one did
 		w2 := db.WriteTxn(ta, tb)
 		vnd.Assert(ta.Revision(w2) == revA0 && tb.Revision(w2) == revB0, "C02.abort-follow-up-revision")
+		// no delete tracker of the aborted transaction is left behind: a deletion
+		// in B (which has no committed iterator) is not retained
+		tb.Delete(w2, &vobj{id: []byte("p")})
+		vnd.Assert(tb.(*genTable[*vobj]).numDeletedObjects(w2) == 0, "C02.abort-left-delete-tracker")
 		w2.Abort()
 		vnd.Cover("C02.aborted")
 	}
 	vnd.Assert(vnd.ObserverCalls() > 0 || !vnd.InVM(), "C02.observer-ran")
 	it.Close()
+	if it2 != nil {
+		it2.Close()
+	}
 	vnd.Cover("C02.end")
 }
